@@ -10,6 +10,8 @@ package main
 import (
 	"bytes"
 	"fmt"
+	"io"
+	"os"
 	"reflect"
 	"sort"
 	"strings"
@@ -162,10 +164,46 @@ func zeroReads(data []byte, want result, label string) {
 	}
 }
 
+// pipeSource: the bytes come out of an os.Pipe (an *os.File that has a Seek
+// method but cannot seek) fed by another goroutine in two pieces.
+func pipeSource(data []byte, want result, label string) {
+	pr, pw, err := os.Pipe()
+	if err != nil {
+		return
+	}
+	go func() {
+		h := len(data) / 2
+		pw.Write(data[:h])
+		pw.Write(data[h:])
+		pw.Close()
+	}()
+	var s *smf.SMF
+	var rerr error
+	c := engine.Catch(func() { s, rerr = smf.ReadFrom(pr) })
+	io.Copy(io.Discard, pr) // let the writer finish
+	pr.Close()
+	got := summarize(s, rerr, c)
+	ctx.Eval()
+	if reflect.DeepEqual(got, want) {
+		return
+	}
+	sig := "pipe:" + want.kind + "->" + got.kind
+	if got.kind == "panic" {
+		sig = got.sig + ":pipe"
+	}
+	if ctx.SigCount(sig) < 10 {
+		ctx.Violation(sig, map[string]interface{}{"kind": "pipe", "file": engine.Hex(data), "family": label,
+			"what": fmt.Sprintf("reading from memory gives %s, reading the same bytes from an os.Pipe gives %s", want.kind, got.kind)})
+	}
+}
+
 func fragmentations(data []byte, label string, pairs, triples bool) {
 	want := readMem(data)
 	ctx.Add("files", 1)
 	zeroReads(data, want, label)
+	if len(data) < 60000 {
+		pipeSource(data, want, label)
+	}
 	for _, eof := range []bool{false, true} {
 		one(data, want, nil, 0, eof, label)
 		for _, per := range []int{1, 2, 3, 7, 100, 101, 1000, 4095, 4096, 4097} {
@@ -379,6 +417,10 @@ func replay() {
 		}
 	}
 	want := readMem(data)
+	if m["kind"] == "pipe" {
+		pipeSource(data, want, "replay")
+		ctx.Finish("replay")
+	}
 	if m["kind"] == "zero-read" {
 		zeroReads(data, want, "replay")
 		ctx.Finish("replay")
